@@ -7,8 +7,8 @@ PROPS["C10"] = dict(
                "exceptions may surface and ASan must stay silent.",
     level_note="Trusted: own encoder/decoder (cross-checked against each other through libtins). Labels are LDH-like (no dots or NUL inside labels). SOA data is compared in libtins' "
                "documented representation (two uncompressed encoded names + 20 bytes) and through DNS::soa_record.",
-    phases=[dict(name="model", harness="c10.cpp", flavor="asan", mode="model", cases=dict(quick=40000, thorough=1000000)),
-            dict(name="hostile", harness="c10.cpp", flavor="asan", mode="hostile", cases=dict(quick=60000, thorough=1000000))],
+    phases=[dict(name="model", harness="c10.cpp", flavor="asan", mode="model", cases=dict(quick=40000, thorough=400000)),
+            dict(name="hostile", harness="c10.cpp", flavor="asan", mode="hostile", cases=dict(quick=60000, thorough=400000))],
     rule="case = initial message (empty | wire from the reference encoder) + 1..12 insertions into random sections, checked after each; distinct = distinct history text; "
          "hostile case = mutated wire message + getters + 1..3 insertions + serialize",
     floors=dict(any={"refused_insertions": 5000, "refused_insertions_before_populated_section": 2000, "distinct": 20000, "insertions": 100000, "insertions_shifting_parsed_records": 10000, "independent_decodes": 100000, "initial:wire-compressed": 5000,
